@@ -21,7 +21,8 @@ func init() {
 			"the uniquifier format yields exactly what the regexp accepts; the chunk name format matches the regexp; the '.u' marker agrees; map-fork and array-fork id spaces are disjoint; sample names assembled from the writer's constants are parsed back into exactly their components by the reader's regexp, " +
 			"J2 only encoded ids reach names (Fork.fqname/path/id are assigned only in updateId from ForkIdString/encodeJournalName.Replace; map keys reach id text only through makeKeySafe/writeSafeKey), " +
 			"J3 stale attempts are ignored (Metadata.cache) and journalFile carries the uniquifier whenever one is set, " +
-			"J4 routing: a notification is applied only to an object that find/getFork/getChunk returned non-nil; getFork's index fast path is bounds-checked and its name search compares the whole remainder. " +
+			"J4 routing: a notification is applied only to an object that find/getFork/getChunk returned non-nil; getFork's index fast path is bounds-checked and its name search compares the whole remainder, " +
+			"J5 the key encoders hand out the key unencoded only where the dominating guards exclude '%' and '/' (search calls with constant needles; byte-wise predicate helpers are folded per byte value), everything else they hand out is the result of url.PathEscape. " +
 			"NOT decided: injectivity of nested mixed array/map fork numbering (arithmetic on run-time lengths), collisions between -u<uniq> directories.",
 		Assumptions: append([]string{"net/url.PathEscape escapes '%', '/', and every byte outside the RFC 3986 unreserved/sub-delims set (evaluated from the Go standard library the checker is built with)"}, commonAssumptions...),
 	}
